@@ -721,6 +721,7 @@ type replayOutcome struct {
 	Pre     []interface{} `json:"pre"`
 	Panic   string        `json:"panic"`
 	Stack   string        `json:"stack"`
+	Alloc   string        `json:"alloc"` // bytes allocated during the call (runtime.MemStats.TotalAlloc)
 	Results []interface{} `json:"results"`
 	Post    []interface{} `json:"post"`
 	Log     []interface{} `json:"log"`
@@ -912,6 +913,8 @@ func doReplay(e *Engine, u *Unit, o *Obligation, fn *ssa.Function, repo string, 
 		body.WriteString("\tout := map[string]interface{}{}\n\tout[\"pre\"] = []interface{}{" + strings.Join(pres, ", ") + "}\n")
 	}
 	body.WriteString("\tfunc() {\n\t\tdefer func() {\n\t\t\tif r := recover(); r != nil {\n\t\t\t\tout[\"panic\"] = fmt.Sprint(r)\n\t\t\t\tout[\"stack\"] = string(debug.Stack())\n\t\t\t}\n\t\t}()\n")
+	body.WriteString("\t\tvar govcM0, govcM1 runtime.MemStats\n\t\truntime.ReadMemStats(&govcM0)\n\t\tdefer func() { runtime.ReadMemStats(&govcM1); out[\"alloc\"] = fmt.Sprint(govcM1.TotalAlloc - govcM0.TotalAlloc) }()\n")
+	rc.imports["runtime"] = "runtime"
 	if nres > 0 {
 		body.WriteString("\t\t" + strings.Join(lhs, ", ") + " := " + call + "\n")
 		var encs []string
